@@ -160,6 +160,9 @@ class SimulationProductState(
         columns = []
         selected_order: list[ops.Qid] = []
         q_set = set(qubits)
+        # Parse the seed once: handing an integer seed to every sub-state would restart the same
+        # stream for each of them and correlate their samples.
+        seed = value.parse_random_state(seed)
         for v in dict.fromkeys(self.sim_states.values()):
             qs = [q for q in v.qubits if q in q_set]
             if any(qs):
